@@ -81,6 +81,8 @@ class Model:
                 for a in init.node.args.args + init.node.args.kwonlyargs:
                     if a.arg == e.id:
                         c = self.annotation_class(m, a.annotation)
+                        if c is not None and c.qual == "jumanji.env.Environment":
+                            return  # a wrapped environment is deliberately left abstract
                         if c is not None:
                             for s in self.concrete_subclasses(c.qual):
                                 add(s)
